@@ -219,6 +219,18 @@ impl RuleSpec {
         std::panic::catch_unwind(|| self.build_inner()).unwrap_or(None)
     }
 
+    /// Do the parts (local time types, rule days, times within +-167:59:59) pass their own public constructors?
+    pub fn parts_build(&self) -> bool {
+        std::panic::catch_unwind(|| match self {
+            RuleSpec::Fixed { off, desig } => LocalTimeType::new(*off, false, Some(desig)).is_ok(),
+            RuleSpec::Alt { std_off, std_desig, dst_off, dst_desig, start, start_time, end, end_time } => {
+                let okt = |t: i32| (t as i64).abs() <= 167 * 3600 + 59 * 60 + 59;
+                LocalTimeType::new(*std_off, false, Some(std_desig)).is_ok() && LocalTimeType::new(*dst_off, true, Some(dst_desig)).is_ok() && start.build().is_some() && end.build().is_some() && okt(*start_time) && okt(*end_time)
+            }
+        })
+        .unwrap_or(false)
+    }
+
     fn build_inner(&self) -> Option<TransitionRule> {
         match self {
             RuleSpec::Fixed { off, desig } => Some(TransitionRule::Fixed(LocalTimeType::new(*off, false, Some(desig)).ok()?)),
